@@ -85,7 +85,9 @@ void harness_alloc_failure(void)
 #else
 	if (!verif_alloc_failed) CHECK(answers == 1 && resp && resp->has_result, "C15.request_succeeds_without_failure");
 #endif
-	CHECK(verif_alloc_failed == (KBASE < NALLOC), "C15.failure_injected_as_planned");
+	/* self-check of the enumeration: a refactoring that changes the number of allocations makes this obligation stale
+	   (reported as a broken check, not as a violation) */
+	__CPROVER_assert(verif_alloc_failed == (KBASE < NALLOC), "META.failure_injected_as_planned");
 	struct element *e = element_table_get("a");
 #if STEP == 0
 	if (resp && resp->is_error) CHECK(e == 0, "C15.add_answered_with_error_created_nothing");
